@@ -33,7 +33,7 @@ def gen_script(rnd, nops, threads, big=False, alias_all=False):
                 size = 4096 * rnd.randint(1, 6)
             if big:
                 size = 4096 * rnd.choice([4096, 8192, 16384])   # 16..64 MiB: fails under RLIMIT_AS
-            elem = rnd.choice([1, 1, 4])
+            elem = rnd.choice([1, 1, 4, 1, 4, 3, 6, 8, 12, 24, 4096])
             ops.append([rnd.randrange(threads), "new", slot, size, elem])
             if size % 4096 == 0:
                 live.append((slot, size, elem))
@@ -82,11 +82,12 @@ def project(strace_path, out_events, tf):
                 evs.append({"ev": "begin", "op": parts[0], "slot": int(parts[2])})
             else:
                 inside = False
-                e = {"ev": "end", "op": parts[0], "slot": int(parts[2]), "result": "-", "size": 0}
+                e = {"ev": "end", "op": parts[0], "slot": int(parts[2]), "result": "-", "size": 0, "elem": 1}
                 if parts[0] == "new":
                     n = news.get(int(parts[2]), {})
                     e["result"] = n.get("result", "?")
                     e["size"] = n.get("size", 0)
+                    e["elem"] = n.get("elem", 1)
                 evs.append(e)
             continue
         if not inside:
